@@ -352,3 +352,44 @@ extern "C" double w_objval(int status, double infty, int objsense, int hasSolRea
    return h.body();
 }
 #endif
+
+#ifdef INST_PRESOLOBJ
+/* StableSum<double> (stablesum.h): the two data members and the constructor are replicated (conformance-checked), the
+ * two operators are the real bodies */
+template <class T> struct StableSum;
+template <> struct StableSum<double>
+{
+   double sum; double c;
+   StableSum(double init) { sum = init; c = 0; }
+   void operator+=(double input)
+   {
+#include "StableSum_add.inc"
+   }
+   operator double() const
+   {
+#include "StableSum_double.inc"
+   }
+};
+extern "C" { extern int g_n; }
+struct H : SoPlexHost
+{
+   VectorBase<R> objvec;
+   R objReal(int i) const { return objvec[i]; }
+   /* the region of _storeSolutionRealFromPresol() that computes the objective value, verbatim */
+   void body()
+   {
+#include "presol_objective.inc"
+   }
+};
+extern "C" double w_presolobj(double offset, int n, double* primal, double* obj)
+{
+   LPStub lp; SettingsStub set; H h;
+   lp.nc = n; lp.nr = 0;
+   set._realParamValues[SoPlexBase<R>::OBJ_OFFSET] = offset;
+   h._currentSettings = &set; h._realLP = &lp;
+   h._solReal._primal.val = primal; h._solReal._primal.dimen = n;
+   h.objvec.val = obj; h.objvec.dimen = n;
+   h.body();
+   return h._solReal._objVal;
+}
+#endif
